@@ -114,6 +114,15 @@ template <class V> static bool setScalar(Ctx& c, V&& v, const std::string& d) {
     std::string raw = unhex(d.substr(1));
     std::vector<char> buf(raw.begin(), raw.end()); buf.push_back(0);
     bool r;
+    // a raw value that is a MessagePack bin 8 / fixext 2 object is given through the typed API half of the time
+    if (raw.size() >= 2 && (unsigned char)raw[0] == 0xc4 && (size_t)(unsigned char)raw[1] == raw.size() - 2 && (c.curAlias & 1)) {
+      bool r2 = v.set(MsgPackBinary(raw.data() + 2, raw.size() - 2));
+      return r2;
+    }
+    if (raw.size() == 4 && (unsigned char)raw[0] == 0xd5 && (c.curAlias & 1)) {
+      bool r2 = v.set(MsgPackExtension((int8_t)raw[1], raw.data() + 2, 2));
+      return r2;
+    }
     switch (c.curAlias % 3) {
       case 1: r = v.set(serialized(buf.data(), raw.size())); break;                                   // char* + size
       case 2: if (raw.find('\0') == std::string::npos) { r = v.set(serialized((const char*)buf.data())); break; }   // zero-terminated
